@@ -43,6 +43,7 @@ def tasks(tier, seed):
     t.append((MOD, "fixed", ()))
     t += [(MOD, "guarded", (i, 16, tier)) for i in range(16)]
     t += [(MOD, "tables", ("factored-pairs", tier, sh, 4)) for sh in range(4)]
+    t += [(MOD, "tables", ("factored-triples", tier, sh, 8)) for sh in range(8)]
     return t
 
 
